@@ -280,13 +280,34 @@ class Gen:
                 leaves.append(name)
                 parts.append(("*" if starred_at == i else "") + name)
                 shape.append("*" if starred_at == i else 1)
+        if depth == 0 and "o" in ctx["params"] and self.ok("unpack_attr_target") and rnd.random() < 0.3:
+            # an attribute / subscript target among the names; its index may read a name that a
+            # LATER target of the same statement rebinds (Python stores targets left to right)
+            cands = [i for i, sh in enumerate(shape) if sh == 1 and i < len(parts) - 1 and "(" not in parts[i]]
+            if cands:
+                i = rnd.choice(cands)
+                later = [p2 for p2 in parts[i + 1:] if p2 in leaves and p2 in ctx["bound"]]
+                old = parts[i]
+                if later and rnd.random() < 0.7:
+                    parts[i] = f"o[{rnd.choice(later)}]"
+                    self.feat("unpack_subscript_target_order_dependent")
+                elif rnd.random() < 0.5:
+                    parts[i] = f"o[{rnd.randint(0, 2)}]"
+                    self.feat("unpack_subscript_target")
+                else:
+                    parts[i] = f"o.bt{rnd.randint(0, 1)}"  # distinct from the o.atK of plain attribute stores
+                    self.feat("unpack_attr_target")
+                if old in leaves:
+                    leaves.remove(old)
         return ", ".join(parts), leaves, shape
 
-    def rhs_for_shape(self, ctx, shape, wrong=False):
+    def rhs_for_shape(self, ctx, shape, wrong=False, nested=False):
         """Build an iterable expression matching the target shape. (p, t)"""
         kinds = ["({x},)", "[{x}]"]
         if self.ok("unpack_nonindexable"):
-            kinds += ["(_q for _q in [{x}])", "iter([{x}])", "It(%d, [{x}])" % self.nsite(), "dict.fromkeys([{x}])" if all(s == 1 for s in shape) else "iter([{x}])"]
+            # dict keys may collapse equal elements: only at the top level, where a failing
+            # unpack happens before any target is stored (the twin's hooks follow the statement)
+            kinds += ["(_q for _q in [{x}])", "iter([{x}])", "It(%d, [{x}])" % self.nsite(), "dict.fromkeys([{x}])" if (all(s == 1 for s in shape) and not nested) else "iter([{x}])"]
         k = self.rnd.choice(kinds)
         if k not in ("({x},)", "[{x}]"):
             self.feat("unpack_nonindexable")
@@ -305,7 +326,7 @@ class Gen:
                     ps.append(e[0])
                     ts.append(e[1])
             else:
-                p, t = self.rhs_for_shape(ctx, sh)
+                p, t = self.rhs_for_shape(ctx, sh, nested=True)
                 ps.append(p)
                 ts.append(t)
         if wrong:
@@ -410,10 +431,44 @@ class Gen:
             self.feat("unpack_wrong_length")
         p, t = self.rhs_for_shape(ctx, shape, wrong=wrong and "*" not in shape)
         self.feat("tuple_assign")
-        em.both(f"{txt} = {p}", f"{txt} = {t}")
+        em.ponly(f"{txt} = {p}")
+        # twin: Python's own semantics spelled out - unpack the direct elements, then store each
+        # target in order (nested targets are unpacked when their turn comes), so that the
+        # bindings made before a failing later target are reported too
+        import ast as _ast
+
+        tnode = _ast.parse(f"{txt} = 0").body[0].targets[0]
+        self.twin_unpack(em, ctx["fn"], tnode, t)
+        import re as _re
+
+        starred = set(_re.findall(r"\*(\w+)", txt))
         for name in leaves:
-            self.bind_hook(em, ctx["fn"], name)
-            ctx["bound"].add(name)
+            self.note_bind(ctx["fn"], name)
+            if name in starred:
+                # holds a list from now on: never read it in integer expressions (list * int
+                # repetition can blow up memory)
+                ctx["bound"].discard(name)
+            else:
+                ctx["bound"].add(name)
+
+    def twin_unpack(self, em, fn, tnode, value):
+        import ast as _ast
+
+        temps = []
+        for elt in tnode.elts:
+            tmp = f"_u{self.nsite()}"
+            temps.append((tmp, elt))
+        lhs = ", ".join(("*" if isinstance(e, _ast.Starred) else "") + tmp for tmp, e in temps)
+        em.tonly(f"{lhs}, = {value}" if len(temps) == 1 else f"{lhs} = {value}")
+        for tmp, elt in temps:
+            inner = elt.value if isinstance(elt, _ast.Starred) else elt
+            if isinstance(inner, _ast.Name):
+                em.tonly(f"{inner.id} = {tmp}")
+                self.bind_hook(em, fn, inner.id)
+            elif isinstance(inner, (_ast.Tuple, _ast.List)):
+                self.twin_unpack(em, fn, inner, tmp)
+            else:
+                em.tonly(f"{_ast.unparse(inner)} = {tmp}")
 
     def s_chain(self, em, ctx, depth):
         n1, n2 = self.rnd.sample(LOCALS, 2)
@@ -544,7 +599,10 @@ class Gen:
         em.it += 1
         for v in lv:
             self.bind_hook(em, fn, v)
-            ctx["bound"].add(v)
+            if "*" + v in tgt:
+                ctx["bound"].discard(v)
+            else:
+                ctx["bound"].add(v)
         ctx["loop"] = ctx.get("loop", 0) + 1
         self.block(em, ctx, depth + 1, rnd.randint(1, 2))
         self.loop_exit(em, ctx, depth)
